@@ -387,6 +387,7 @@ def run(ctx):
             ctx.skip(why, 1 + len(st['muts']))
             continue
         ok = check_node(ctx, node, mbytes, names, avail)
+        ctx.again(check_node, ctx, node, mbytes, names, avail)
         ctx.replayed += 1
         ctx.count(('node', node), nontrivial=False)
         for m in st['muts']:
@@ -398,6 +399,7 @@ def run(ctx):
     want = {'trunc', 'extend', 'len+1', 'len-1', 'nonmin', 'toptag', 'nodetag', 'primtag', 'byte'}
     if seen_classes != want or not accepted or len(set(pcs.get(k, 0) for k in ('encode', 'decode', 'mutate', 'done'))) != 1 or not pcs.get('done'):
         raise MachineryError('vacuity: mutation classes %s, accepted %d, states per phase %s' % (sorted(seen_classes), accepted, pcs))
+    ctx.second_pass()
     ctx.exhaustive = True
     leg_c(ctx, names)
 
